@@ -165,3 +165,26 @@ pub mod vm {
         }
     }
 }
+
+/// Arrays are drawn element by element as scalar `kani::any()` calls: with `--slice-formula` the trace steps
+/// of array-typed `any()` are sliced away and the concrete-playback vectors come out incomplete.
+#[cfg(kani)]
+pub fn any_bytes<const N: usize>() -> [u8; N] {
+    let mut a = [0u8; N];
+    let mut i = 0;
+    while i < N {
+        a[i] = kani::any::<u8>();
+        i += 1;
+    }
+    a
+}
+#[cfg(kani)]
+pub fn any_u64s<const N: usize>() -> [u64; N] {
+    let mut a = [0u64; N];
+    let mut i = 0;
+    while i < N {
+        a[i] = kani::any::<u64>();
+        i += 1;
+    }
+    a
+}
